@@ -178,7 +178,7 @@ def eval_cases(imports, exprs, name, shard=400, timeout=240, workdir=None):
     shards = [exprs[i:i + shard] for i in range(0, len(exprs), shard)]
 
     def run(k):
-        fn = workdir / f"cases_{name}_{k}.v"
+        fn = workdir / f"cases_{name}_p{os.getpid()}_{k}.v"  # pid: concurrent runs must not share case files
         body = [CASE_HEADER, imports]
         for j, e in enumerate(shards[k]):
             body.append(f'Eval vm_compute in ({e}).')
